@@ -9,11 +9,11 @@ import (
 
 type world struct{}
 
-func (world) Name() string         { return "alloc" }
-func (world) Props() []string      { return []string{"C28"} }
-func (world) Bubble(string) bool   { return false }
-func (world) Level(string) string  { return "exploration" }
-func (world) Run(k *kernel.K)      { runAlloc(k) }
+func (world) Name() string        { return "alloc" }
+func (world) Props() []string     { return []string{"C28"} }
+func (world) Bubble(string) bool  { return false }
+func (world) Level(string) string { return "exploration" }
+func (world) Run(k *kernel.K)     { runAlloc(k) }
 func (world) Rule(p string) string {
 	return "one run = one real allocator.FreeingBumpHeapAllocator over one simmem linear memory (sparse, Grow is the fault seam). " +
 		"The tape draws: heap base (0, 8, unaligned, page boundaries, 1 MiB, 2 GiB, within 16 bytes of 4 GiB), initial pages, maximum pages (small, 65536, above 65536), " +
@@ -23,7 +23,14 @@ func (world) Rule(p string) string {
 		"(double free, misaligned, interior of a live block, header address, below heap base, above the high-water mark, beyond memory, arbitrary). " +
 		"After every operation the reference model (sorted interval map of live blocks + shadow of user bytes + poisoned flag, written from the property statement) is compared. " +
 		"Non-trivial = at least one successful allocation and one successful free, and (a fault fired: Grow refused/injected, invalid or double free, oversize request; or a freed block was handed out again). " +
-		"distinct = distinct sequence of event kinds (operation kind + outcome class)."
+		"distinct = distinct sequence of event kinds (operation kind + outcome class)." + inbandNote()
+}
+
+func inbandNote() string {
+	if inbandEnabled {
+		return ""
+	}
+	return " [THIS BATCH RAN WITH VERIF_C28_INBAND=0: invalid frees whose would-be header lies in program-owned bytes (kinds inband/...) were skipped]"
 }
 func (world) Components(string) ([]string, []string) {
 	return []string{"lib/runtime/allocator.FreeingBumpHeapAllocator (NewFreeingBumpHeapAllocator, Allocate, Deallocate, bump, header encoding, free lists)"},
